@@ -76,6 +76,10 @@ func (enc *VP8Encoder) encodeFrame() {
 
 		// 6. Record tokens for the coefficient data (skip if no coefficients).
 		if info.Skip {
+			// A skipped macroblock owns no tokens, but its (empty) range must
+			// still be marked: EmitTokensPartitioned slices the token stream
+			// by per-macroblock start offsets.
+			enc.tokens.MarkMBStart(it.MBIdx)
 			// Mirror decoder's skip handling: clear NZ context.
 			enc.topNz[it.X] = 0
 			enc.leftNz = 0
